@@ -898,6 +898,17 @@ class Runner:
         s = s.replace(self.home, '{HOME}')
         return re.sub(r'^\{SDS\}/internal/\S*/act\.src$', '{SRC}', s)
 
+    def run_guarded(self, case):
+        """an observation that cannot be collected / canonicalised is an observation that matches nothing (verdict
+        'other', no processes): the case fails, the run goes on"""
+        try:
+            return self.run(case)
+        except Exception:
+            import traceback
+            return {'exit': -1, 'stdout_is_sds': False, 'exception': 'harness: ' + traceback.format_exc()[-600:],
+                    'procs': [], 'result': None, 'caps': [], 'source': None, 'report': 'observation failed',
+                    'case_text': '<observation failed>'}
+
     def run(self, case):
         """-> observation dict"""
         for fn in os.listdir(self.sbx):
@@ -928,7 +939,8 @@ class Runner:
             cmd = ent['cmd']
             procs.append({
                 'shell': ent['shell'],
-                'cmd': self.canon(cmd, sds) if ent['shell'] else [self.canon(a, sds) for a in cmd],
+                # str for a shell command, list otherwise - but whatever the implementation hands over is recorded
+                'cmd': self.canon(cmd, sds) if isinstance(cmd, str) else [self.canon(str(a), sds) for a in cmd],
                 'stdin': None if ent['stdin'] is None else self.canon(ent['stdin'], sds),
                 'cwd': self.canon(ent['cwd'], sds), 'rc': ent['rc'],
                 'child': None if len(ch) != 1 else {
@@ -972,7 +984,7 @@ def _worker(args):
     if _RUNNER is None:
         _RUNNER = Runner(work)
     try:
-        return [_RUNNER.run(c) for c in cases]
+        return [_RUNNER.run_guarded(c) for c in cases]
     finally:
         _RUNNER.close()
         _RUNNER = None
@@ -1113,6 +1125,13 @@ def _terminate(fr):
 
 
 def c_exe(p):
+    if p['shell'] and not isinstance(p['cmd'], str) and len(p['cmd']) == 1:
+        # subprocess: with shell=True a one-element list is the same `sh -c ELEMENT` as the string
+        return '(ExShell %s)' % ctext(p['cmd'][0])
+    if p['shell'] and not isinstance(p['cmd'], str):
+        return '(ExShellList %s)' % (clist([ctext(a) for a in p['cmd']]) if p['cmd'] else '(@nil text)')
+    if not p['shell'] and isinstance(p['cmd'], str):
+        return '(ExShellList %s)' % clist([ctext('<shell=False with a string>'), ctext(p['cmd'])])
     if p['shell']:
         return '(ExShell %s)' % ctext(p['cmd'])
     return '(ExArgv %s)' % (clist([ctext(a) for a in p['cmd']]) if p['cmd'] else '(@nil text)')
@@ -1180,6 +1199,19 @@ def chain_len(p, defs, depth=0):
     return contributes + chain_len(q, defs, depth + 1)
 
 
+def shell_chain_with_args(p, defs, depth=0, seen_args=False):
+    """(chain depth, True) if the program is a reference that ends, through `depth` program symbols, in a shell
+    command and arguments are added on the way (the class of seeded mutant C10-m4); else None"""
+    if depth > 20:
+        return None
+    if p[0] == 'cmd':
+        return depth if (p[1][0] == 'shell' and seen_args and depth > 0) else None
+    v = defs.get(p[1])
+    if not v or v[0] != 'program':
+        return None
+    return shell_chain_with_args(v[1], defs, depth + 1, seen_args or bool(p[2]))
+
+
 def programs_of(case, with_defs=False):
     out = []
 
@@ -1226,6 +1258,10 @@ def features(case, obs):
         f.add('shell')
     if any(p['stdin'] is not None for p in obs['procs']):
         f.add('stdin')
+    for p in progs:
+        d = shell_chain_with_args(p, defs)
+        if d:
+            f.add('shell-command symbol referenced with additional arguments, chain depth %d' % min(d, 4))
     if mixed_stdin_sequence(case):
         f.add('stdin: buffered part before descriptor-written part (class of FIX-C10-1)')
     return f
